@@ -300,5 +300,7 @@ def discover(P):
             continue
         if it.ann_type(f.module, args[0].annotation) != "bytes":
             continue
+        if f.short.split(".")[-1].startswith("_"):
+            continue        # private helper: not an entry point; it is analysed inline wherever a public decoder calls it
         out.append(f.short)
     return out
